@@ -4,7 +4,7 @@ from __future__ import annotations
 
 import importlib
 
-CONTRACT_MODULES = ["contracts.curves", "contracts.groups", "contracts.closed", "contracts.fields", "contracts.ints"]
+CONTRACT_MODULES = ["contracts.curves", "contracts.groups", "contracts.closed", "contracts.fields", "contracts.ints", "contracts.purity", "contracts.hashing"]
 
 _COMMON_TRUST = [
     "CPython semantics as modelled in DESIGN.md section 3 (mathematical ints, bytes as octet sequences, static name resolution, no monkey-patching)",
@@ -46,6 +46,26 @@ PROPS = {
         text="Reference and optimized classes are verified against the same abstract contract by the same unit code (C08); the simulation lemma (R-preservation, canonical representatives equal) then gives equal values for every expression tree; sgn0 of the optimized classes is proved equal to the RFC 9380 section 4.1 definition for all elements (z3).",
         note="Same assumptions as C08; FQ12.inv compared by the bounded monitor only.",
         design_ref="DESIGN.md section 8 C14"),
+    "C20": dict(level="proof", trusted=["CPython semantics (DESIGN section 3): static name resolution, no monkey-patching, no __setattr__/__getattr__ hooks",
+                                        "C-implemented callees (hashlib, hmac, int/bytes/list builtins) have their documented effects",
+                                        "the effect analysis pyvc.purity (flow-insensitive must-own analysis over the AST of every function in /repo/py_ecc)"],
+        assumptions=["allowed exception 1: functools.cached_property on the three sgn0 methods writes its memo into the receiver's instance dict; the memoised value depends only on n / coeffs, which nothing writes after __init__",
+                     "allowed exception 2: py_ecc._import_module memoises importlib.import_module in the package namespace (idempotent through sys.modules)"],
+        text="A frame obligation `modifies nothing` is generated for every function and method of the package (not only the anchored ones): every heap-writing statement or mutating method call must have a receiver allocated in the same activation (must-own analysis), writes to self only in __init__, no global/nonlocal, no module-level mutation, no non-deterministic imports or hash-order iteration, module constants bound once. By induction over call histories all results are functions of argument values and constants. This is a proof by static effect analysis; it is the right level because the property quantifies over all call histories.",
+        note="Trusted: the effect analysis and the purity of C-implemented callees; two stated exceptions (cached_property memo, lazy sub-module import).",
+        design_ref="DESIGN.md section 8 C20",
+        technique="contract-based frame verification: `modifies nothing` obligation per function discharged by a static ownership/effect analysis of the real AST; violations replayed by a history/mutation monitor on the real code"),
+    "C15": dict(level="proof", trusted=_COMMON_TRUST + ["hashlib objects are functions of their input with fixed digest_size/block_size (uninterpreted H: the proof holds for every hash)"],
+        assumptions=["digest_size <= 257 (so that the RFC's third abort condition L > 65535 is implied by ell > 255); true of every fixed-output hashlib function",
+                     "math.ceil(a / b) on ints is exact ceiling division (operands < 2^53; DESIGN section 3.7)"],
+        text="expand_message_xmd is executed symbolically for an arbitrary message, tag, length and an UNINTERPRETED hash with symbolic digest and block sizes; its loop is proved against the RFC 9380 5.3.1 recurrence by an inductive invariant (z3 sequences), the result has exactly the requested length, and it raises exactly when the tag is longer than 255 bytes or more than 255 blocks are needed. hash_to_field_FQ/FQ2 are proved for a symbolic count: element i, coordinate j is OS2IP of the 64-byte window at 64(j + i m) reduced mod p, windows inside the expanded bytes.",
+        note="Any exception type counts as 'refuses' (property text). Hash determinism is assumed (A-HASH).",
+        design_ref="DESIGN.md section 8 C15"),
+    "C16": dict(level="proof", trusted=_COMMON_TRUST + ["HMAC-SHA256 / SHA-256 as uninterpreted functions with 32-byte outputs"],
+        assumptions=["A-HASH: KeyGen's rejection loop terminates (partial correctness is proved)"],
+        text="hkdf_extract and hkdf_expand are proved equal to RFC 5869 for all salts, IKMs, infos and every length 0..8160 (loop invariant okm = T(1)|..|T(i), z3 sequences over an uninterpreted HMAC); KeyGen is proved, by a loop invariant with a ghost round counter, to return the first non-zero candidate of the BLS draft v4 procedure (salt hashed before each attempt, IKM || 0x00, info || I2OSP(48,2), 48 bytes mod r), hence in [1, r-1] and a function of its inputs.",
+        note="Termination of KeyGen is a statement about hash outputs and is assumed.",
+        design_ref="DESIGN.md section 8 C16"),
     "C17": dict(level="proof", trusted=_COMMON_TRUST, assumptions=[
         "A-ORDER: #E(F_p) = h1 r (forced by Hasse + r prime, eval) and #E'(F_p2) = h2 r (assumed; Hasse-interval cross-check by eval)",
         "A-STRUCT-G1: the cofactor part of E(F_p) has exponent dividing 1 - x (RFC 9380 section 8.8.1); needed only for 'clear_cofactor_G1 lands in the subgroup'",
